@@ -5,7 +5,7 @@ CONSTANTS
   PathsC <- MCPaths
   WritesC <- MCWrites
   Victim = "R"
-  ConvertGuard = TRUE
+  ConvertGuard = FALSE
   EphemeralIsRealm = TRUE
   MaxDepth = 4
   MaxFvals = 1
@@ -13,4 +13,4 @@ CONSTANTS
 INIT Init
 NEXT Next
 VIEW View
-INVARIANTS StorageImpliesAuthority AttackerTextNeverAuthorised NoForeignWrite NothingPersistsFromAbort RealmCodeRunsAtHome ConstructOnlyAtHome NoLaunderedReceiver
+INVARIANTS NoForeignWrite
